@@ -1,7 +1,4 @@
 import UnytModel.Driver
 open Unyt
 
-def main : IO Unit := do
-  let stdin ← IO.getStdin
-  let stdout ← IO.getStdout
-  loop stdin stdout {}
+def main : IO Unit := runDriver baseHandlers
